@@ -37,18 +37,14 @@ async fn read_one_async(path: &Path) -> anyhow::Result<Item> {
     };
     read_one_from_slice(&input)
         .map_err(|err| {
-            let msg = match err {
-                Error::MissingSectionEnd { end_marker } => format!(
-                    "section end {:?} missing",
-                    String::from_utf8_lossy(&end_marker)
-                ),
-                Error::IllegalSectionStart { line } => format!(
-                    "illegal section start: {:?}",
-                    String::from_utf8_lossy(&line)
-                ),
-                Error::Base64Decode(msg) => msg,
+            // The offending marker / line / byte is content of the file, which may be the
+            // private key: report only what kind of error it was, never the content.
+            let kind = match err {
+                Error::MissingSectionEnd { .. } => "section end marker missing",
+                Error::IllegalSectionStart { .. } => "illegal section start",
+                Error::Base64Decode(_) => "invalid base64 content",
             };
-            anyhow::anyhow!("failed to decode PEM file contents: {msg}")
+            anyhow::anyhow!("failed to decode PEM file contents: {kind}")
         })?
         .ok_or_else(|| anyhow::anyhow!("no PEM section found in file contents"))
         .map(|(item, _)| item)
